@@ -184,10 +184,22 @@ func population(src cs.Src, c *ev.Case, bigOK bool) cs.WorldOpts {
 		}
 		o.Vals = append(o.Vals, v)
 	}
+	// one record whose stake is >= 2^63 next to small ones (differences >= 2^63 between eligible records); the pillars stay
+	// small then so that the supply fits into uint64
+	if bigOK && o.PillarStake < 1<<62 && src.Int("huge", 0, 3) == 0 {
+		hv := cs.ValSpec{Key: 2 + n, OutputKey: -1, Stake: []uint64{1 << 63, 1<<63 + 5, 1<<64 - 1<<50}[src.Int("hugestake", 0, 2)],
+			Delegate: src.Int("hugedeleg", 0, 3) == 0, Committees: [][]uint64{{1}, {1, 2, 3}}[src.Int("hugecmt", 0, 1)]}
+		o.Vals = append(o.Vals, hv)
+		n++
+		c.Class("population: one stake >= 2^63 next to small ones")
+	}
 	p := cs.StakingParams()
 	total := uint64(n + 2)
-	p.Validator.MaxCommitteeSize = []uint64{1, 2, 3, max(total/2, 1), total - 1, total, total + 1, 100}[src.Int("cap", 0, 7)]
-	p.Validator.MaximumDelegatesPerCommittee = []uint64{0, 0, 1, 2, 3}[src.Int("dcap", 0, 4)]
+	caps := append([]uint64{1, 2, 3, max(total/2, 1), total - 1, total, total + 1, 100}, cs.HugeCaps...)
+	p.Validator.MaxCommitteeSize = caps[src.Int("cap", 0, len(caps)-1)]
+	dcaps := append([]uint64{0, 0, 1, 2, 3}, cs.HugeCaps...)
+	p.Validator.MaximumDelegatesPerCommittee = dcaps[src.Int("dcap", 0, len(dcaps)-1)]
+	c.ClassIf(p.Validator.MaxCommitteeSize >= 1<<31 || p.Validator.MaximumDelegatesPerCommittee >= 1<<31, "population: cap >= 2^31 ('no cap')")
 	o.Params = p
 	o.MutateGen = func(g *fsm.GenesisState) {
 		for _, v := range g.Validators {
